@@ -608,7 +608,7 @@ def random_frame(ctx, kinds='MHBPX'):
         size = g.r.choice([0, 1, 2 ** 32, 2 ** 63, 2 ** 64 - 1, g.r.getrandbits(64)])
         return real.make_header(size, props_vals(ctx, g.r.getrandbits(nprops - 1))), ch
     if k == 'B':
-        n = g.r.choice([1, 2, 7, 8, 100, 4096])
+        n = g.r.choice([0, 1, 2, 7, 8, 100, 4096])
         content = g.r.choice([bytes(g.r.getrandbits(8) for _ in range(n)), b'\xce' * n, (b'AMQP\x00\x00\x09\x01' * n)[:n],
                               (b'\x01\x00\x01\x00\x00\x00\x04\x00\x0a\x00\x0b\xce' * n)[:n], (b'\x08\x00\x00\x00\x00\x00\x00\xce' * n)[:n]])
         return body.ContentBody(content), ch
